@@ -234,6 +234,12 @@ MINE = {
  "C18-k": ("missed", "path variables bound to proto3 optional fields in the schema-shape probes"),
  "C19-k": ("missed", "maps with int32 / uint32 / int64 / bool keys, with and without rules on the keys"),
  "C20-k": ("missed", "mock case with message types of another Go package (singular, map value, inside a local map value); found and recorded a genuine defect on the way (map values of an imported type ignore its examples)"),
+ "C04-l": ("caught as built", ""),
+ "C09-l": ("caught as built", ""),
+ "C10-l": ("missed by C10 (caught by C02's violation-names-the-proto-field oracle on unparsable URL values)", ""),
+ "C11-l": ("caught as built", ""),
+ "C16-l": ("missed", "shape family ident-spelling: underscores at the ends / doubled / next to digits and one-letter names for plain oneofs, discriminated oneofs (nested and flattened) and fields"),
+ "C17-l": ("missed, and out of reach: the change adds a new client option (With<Svc>DefaultCallOptions) and breaks isolation only for clients constructed with it; on the API the pinned tree emits, every execution is identical to the unchanged tree's, so no monitor over that API can tell them apart (the drivers are written against the pinned API and cannot call an option that does not exist there)", ""),
 }
 
 
